@@ -130,6 +130,24 @@ def runPTok (toks : List PTok) (due : List Ctl) (ls : Links) : Option Links :=
   | [.check, .runEach] => some (due.foldl (fun s c => write s c.act) ls)
   | _ => none
 
+/-- the companion loop of `_get_pump_controls` / `_get_valve_controls` (`for control: for action: if target_attr == ATTR: ... append`) -/
+structure CompLoop where
+  attr : UAttr            -- the `target_attr` tested
+  kind : Kind             -- the `isinstance(target_obj, …)` that is accepted (others raise ValueError)
+  status : Rat            -- the status the companion commands
+  samePriority : Bool     -- `priority=control.priority`
+  sameCondition : Bool    -- first argument is `control.condition`
+  perAction : Bool        -- one companion for EVERY matching action of EVERY control: no `continue` / membership test / seen-set in the loop
+  deriving Repr, DecidableEq, Inhabited
+
+/-- interpretation: the companions the loop appends (`none` = ValueError); a loop that de-duplicates keeps the first per link -/
+def runCompLoop (idBase : Nat) (L : CompLoop) (us : List UCtl) : Option (List Ctl) :=
+  if us.any (fun u => u.attr == L.attr && u.kind != L.kind) then none else
+  let all := us.filter (fun u => u.attr == L.attr)
+  let kept := if L.perAction then all
+    else all.foldl (fun acc u => if acc.any (fun v => v.link == u.link) then acc else acc ++ [u]) []
+  some (kept.map fun u => ⟨idBase + u.id, if L.samePriority then u.prio else 3, ⟨u.link, .user, L.status⟩⟩)
+
 /-- who may write `_internal_status`: which `_get_*_controls` builder creates `_InternalControlAction(link, '_internal_status', …)`
 for which link type, under which guard -/
 structure Writer where
